@@ -20,6 +20,7 @@ const (
 	classMark = 3
 
 	actionBudget = 64 // the implementation's `numActions < 64`; the Coq model takes it from Gen/Consts.v
+	sizeCap      = 1024
 )
 
 func lookupClass(cd [][2]int, g int) int {
@@ -722,6 +723,11 @@ func Reference(ll []Lookup, gd *Gdef, order []int, in []Glyph) (out []Glyph, inD
 				// cannot happen in the reference; guard against a hang
 				ok = false
 				next = pos + 1
+			}
+			if len(seq) > sizeCap {
+				// sequences growing beyond the cap are outside the domain of
+				// the correspondence (coq/C06/Model.v size_cap)
+				return seq, false
 			}
 			pos = next
 		}
